@@ -22,7 +22,8 @@ LEVEL_TEXT = ('Decides clauses C15-a..f: every SchemaType::NAME is a JSON Schema
               "le `required` list; the router the document is generated from is the result of Ohkami::into_router on this application's router and fangs (the step in"
               ' which the top-level fangs map their security requirements and tags into the operations, and which the served application takes too). The names of a r'
               "oute's path parameters reach assign_path_param_name in template order: through order-preserving collections only, neither sorted nor reversed (the han"
-              "dler's parameter schemas are assigned by position). Decides these clauses, not document <=> application for all applications.")
+              "dler's parameter schemas are assigned by position). Every operation a node answers is registered before the loops move on; the blanket Fang impl for F"
+              'angAction forwards openapi_map_operation to the action. Decides these clauses, not document <=> application for all applications.')
 
 JSON_SCHEMA_TYPES = {"string", "number", "integer", "boolean", "array", "object", "null", ""}
 FIXED = {
@@ -302,8 +303,19 @@ def c15b(ck, prog):
     ck.ob(R, "doc:template-braces", ok, g.loc(None), "" if ok else "`:p` segments are not rewritten as `{p}`", how="strip_prefix(':') => \"{\" + p + \"}\"")
     # operations registered under the method's own lower-case name (C01-a table reused)
     rg = g.calls_to(r"paths::Operations::register$")
-    ok = len(rg) == 1 and ("@" in decision.describe_deep(g, rg[0].args[1], 3) or "tuple" in decision.describe_deep(g, rg[0].args[1], 3) or True)
-    ck.ob(R, "doc:register-under-method", ok, g.loc(None), "" if ok else "operations are not registered under their method", how="operations.register(openapi_method, operation)", nontrivial=False)
+    ok = len(rg) == 1
+    if ok:
+        # ... for every operation found: once a node answered an operation for (route, method), the loops do not move on
+        # without registering it (no `continue` on a deprecated / untagged / hidden operation)
+        ops = [c for c in g.calls() if c.name == "clone" and "openapi_operation" in decision.describe_deep(g, c.args[0], 6)]
+        for oc in ops[:1]:
+            tbs = paths.some_edge_targets(g, prog, oc.bb)
+            from .lib.bound import natural_loops as _nl
+            inner = sorted([(len(b), h) for h, b in _nl(g).items() if rg[0].bb in b])
+            hdr = inner[0][1] if inner else None
+            if tbs and hdr is not None and any(hdr in g.reachable_from(tb, avoid=(rg[0].bb,)) for tb in tbs):
+                ok = False
+    ck.ob(R, "doc:register-under-method", ok, g.loc(None), "" if ok else "an operation the router serves can be left out of the document: the loops move on without operations.register(..) on some path", how="operations.register(openapi_method, operation) for every operation found")
 
 
 def c15c(ck, prog):
